@@ -209,6 +209,12 @@ class C07(Prop):
             spec = proggen.random_spec(rng)
             n = rng.choice((8, 15, 25, 40)) if tier == 'quick' else rng.choice((10, 20, 40, 60))
             prog = proggen.random_program(rng, spec, n)
+            if spec.get('shape') == 'nvparent' and rng.random() < 0.7:
+                # a non-versioned parent with versioned children is deleted on its own (the flush itself changes them)
+                pos = rng.randrange(0, len(prog) + 1)
+                prog = ([['add', 'Category', [1], {'title': 1}], ['add', 'Article', [3], {'name': 1}],
+                         ['setrel', 'Article', [3], 'category', 'Category', [1]], ['commit']] + prog[:pos] +
+                        [['commit'], ['del', 'Category', [1]], ['commit']] + prog[pos:])
             info = proggen.entity_info(spec)
             # malformed stream and special steps
             k = rng.random()
